@@ -1,6 +1,7 @@
 package h
 
 import (
+	"errors"
 	"io"
 	"net/http"
 	"net/url"
@@ -51,6 +52,7 @@ func flat(m z.ZogIssueMap) []*z.ZogIssue {
 }
 
 var c11re = regexp.MustCompile("^z+$")
+var errPre = errors.New("preprocess failed")
 
 func c11Request(method, ctype, body, query string) *http.Request {
 	r := &http.Request{Method: method, Header: http.Header{}, URL: &url.URL{RawQuery: query}}
@@ -153,6 +155,14 @@ func c11Catalogue() []c11case {
 		{"preprocess/mismatch", "coerce", "number", "", func(o ...z.ExecOption) []*z.ZogIssue {
 			var d S
 			return flat(z.Struct(z.Schema{"a": z.Preprocess(func(s int, c z.Ctx) (int, error) { return s, nil }, z.Int())}).Parse(map[string]any{"a": "zz"}, &d, o...))
+		}},
+		{"preprocess-ptr/error", "", "string", "", func(o ...z.ExecOption) []*z.ZogIssue {
+			var d struct{ A *string }
+			return flat(z.Struct(z.Schema{"a": z.Preprocess(func(s string, c z.Ctx) (string, error) { return "", errPre }, z.Ptr(z.String()))}).Parse(map[string]any{"a": "x"}, &d, o...))
+		}},
+		{"preprocess-ptr/mismatch", "coerce", "string", "", func(o ...z.ExecOption) []*z.ZogIssue {
+			var d struct{ A *string }
+			return flat(z.Struct(z.Schema{"a": z.Preprocess(func(s string, c z.Ctx) (string, error) { return s, nil }, z.Ptr(z.String()))}).Parse(map[string]any{"a": 5}, &d, o...))
 		}},
 		{"testfunc/custom-code", "my_code", "number", "", num(z.Int().TestFunc(func(x any, c z.Ctx) bool { return false }, z.IssueCode("my_code")), 1)},
 		{"zhttp/invalid-json", "invalid_json", "struct", "", func(o ...z.ExecOption) []*z.ZogIssue {
@@ -293,7 +303,8 @@ func C11_Run(job string) {
 		v.Assert(errs[0].Message == want, "C11:message-precedence")
 	case "i18n":
 		old := conf.IssueFormatter
-		i18n.SetLanguagesErrsMap(map[string]zconst.LangMap{"en": en.Map, "es": es.Map}, "en")
+		def := []string{"en", "es"}[v.Choice("default-lang", 2)]
+		i18n.SetLanguagesErrsMap(map[string]zconst.LangMap{"en": en.Map, "es": es.Map}, def)
 		lang := []any{nil, "es", "en", "fr"}[v.Choice("lang", 4)]
 		var opts []z.ExecOption
 		if lang != nil {
@@ -307,12 +318,19 @@ func C11_Run(job string) {
 		v.Assert(len(errs) == 1 && len(errs2) == 1, "C11:expected-exactly-one-issue")
 		wantEn := strings.ReplaceAll(en.Map["string"]["min"], "{{min}}", "5")
 		wantEs := strings.ReplaceAll(es.Map["string"]["min"], "{{min}}", "5")
-		if lang == "es" {
-			v.Assert(errs[0].Message == wantEs, "C11:language-selection")
-		} else {
-			v.Assert(errs[0].Message == wantEn, "C11:language-selection")
+		wantDef := wantEn
+		if def == "es" {
+			wantDef = wantEs
 		}
-		v.Assert(errs2[0].Message == wantEn, "C11:language-leaked-between-executions")
+		switch lang {
+		case "es":
+			v.Assert(errs[0].Message == wantEs, "C11:language-selection")
+		case "en":
+			v.Assert(errs[0].Message == wantEn, "C11:language-selection")
+		default:
+			v.Assert(errs[0].Message == wantDef, "C11:language-selection")
+		}
+		v.Assert(errs2[0].Message == wantDef, "C11:language-leaked-between-executions")
 		v.Cover("precedence-case")
 	}
 }
